@@ -343,6 +343,49 @@ theorem idft2_dft2_oversampled (f : Arr ℂ) (m n K L : ℕ) (hm : f.s0 = m) (hn
     rw [← mul_assoc, ← Complex.ofReal_mul, sqrt_abs_inv_mul_self K L hK hL]
     push_cast; field_simp
 
+open ComplexConjugate in
+/-- **an oversampled round trip with a forward shift returns a phased copy.** Forward transform with `α = (1/K, 1/L)` onto `K × L`
+samples, `K ≥ m`, `L ≥ n`, with any real output shift `(shr, shc)`; inverse with the same sampling and flag (zero shift) back onto
+the input shape: sample `[x, y]` is `f[x, y]` times the shift's phase ramp `exp(2πi((x − ⌊m/2⌋)·shr/K + (y − ⌊n/2⌋)·shc/L))` —
+modulus 1, so the round trip keeps every `|f[x, y]|`. (`shr = shc = 0`: `idft2_dft2_oversampled`.) -/
+theorem idft2_dft2_oversampled_shifted (f : Arr ℂ) (m n K L : ℕ) (hm : f.s0 = m) (hn : f.s1 = n) (hK : 0 < K) (hL : 0 < L)
+    (hmK : m ≤ K) (hnL : n ≤ L) (shr shc : ℝ) (unitary : Bool) (x y : ℕ) (hx : x < m) (hy : y < n) :
+    (idft2 (dft2 f (1 / (K : ℝ)) (1 / (L : ℝ)) K L shr shc 0 0 unitary) (1 / (K : ℝ)) (1 / (L : ℝ)) m n 0 0 unitary).get x y
+      = Complex.exp ((2 * Real.pi * Complex.I) * ((1 / (K : ℝ) * (((x : ℤ) - (m : ℤ) / 2 : ℤ) : ℝ) * shr : ℝ) : ℂ))
+        * Complex.exp ((2 * Real.pi * Complex.I) * ((1 / (L : ℝ) * (((y : ℤ) - (n : ℤ) / 2 : ℤ) : ℝ) * shc : ℝ) : ℂ))
+        * f.get x y := by
+  have hker : ∀ (m K : ℕ) (s : ℝ) (u i : ℤ), conj (ker (1 / K) K m 0 0 u i)
+      = Complex.exp ((2 * Real.pi * Complex.I) * ((1 / (K : ℝ) * ((i - (m : ℤ) / 2 : ℤ) : ℝ) * s : ℝ) : ℂ))
+        * conj (ker (1 / K) m K 0 s i u) := by
+    intro m K s u i
+    rw [conj_ker, conj_ker, ← Complex.exp_add]
+    congr 1
+    unfold cc
+    push_cast
+    ring
+  rw [idft2_get_eq]
+  simp only [dft2C_s0, dft2C_s1, Int.toNat_natCast, dft2_get_eq]
+  rw [pull_const]
+  unfold dft2Sum
+  simp only [hm, hn, Int.toNat_natCast]
+  simp only [hker m K shr, hker n L shc]
+  have hpull : ∀ (a b : ℕ → ℂ) (S : ℕ → ℕ → ℂ) (p q : ℂ),
+      ∑ v ∈ range L, (∑ u ∈ range K, (p * a u) * S u v) * (q * b v)
+        = p * q * ∑ v ∈ range L, (∑ u ∈ range K, a u * S u v) * b v := by
+    intro a b S p q
+    simp only [mul_sum, sum_mul]
+    exact sum_congr rfl fun v _ => sum_congr rfl fun u _ => by ring
+  rw [hpull]
+  rw [inv2 m n K L (fun x u => ker (1 / K) m K 0 shr x u) (fun y v => ker (1 / L) n L 0 shc y v)
+    (orth_ker m K hK hmK m 0 shr) (orth_ker n L hL hnL n 0 shc) (fun x y => f.get x y) x y hx hy]
+  have hK' : (K : ℂ) ≠ 0 := by exact_mod_cast hK.ne'
+  have hL' : (L : ℂ) ≠ 0 := by exact_mod_cast hL.ne'
+  cases unitary
+  · simp only [Bool.false_eq_true, if_false]; push_cast; field_simp
+  · simp only [if_true]
+    rw [← mul_assoc, ← Complex.ofReal_mul, sqrt_abs_inv_mul_self K L hK hL]
+    push_cast; field_simp
+
 /-- **Parseval, forward.** Under the unitary flag, over one full period (`α = (1/m, 1/n)`, output shape = input shape; any
 integer offsets and real shifts) `Σ|dft2 f|² = Σ|f|²`. -/
 theorem dft2_parseval_full_period (f : Arr ℂ) (m n : ℕ) (hm : f.s0 = m) (hn : f.s1 = n) (hm0 : 0 < m) (hn0 : 0 < n)
